@@ -594,7 +594,7 @@ def run(ctx, focus):
         scheddriver.run(ctx)
     if focus in ('C02', 'C04'):
         from vp import scheddecide
-        scheddecide.run(ctx, 1200 if quick else 9000)
+        scheddecide.run(ctx, 1200 if quick else 10 ** 7)      # thorough: the whole 2-dependency space
     ctx.assumptions = [
         'CPython threading/queue primitives behave as the shims in harness/vp/detsched.py (FIFO queue, '
         'join waits for unfinished == 0, notify_all wakes all waiters, re-entrant locks)',
